@@ -248,6 +248,22 @@ func c14r1(c *Ctx) {
 		} else {
 			c.Anchor(rule, msg+".MarshalToSizedBuffer")
 		}
+		// presence: whether a field is written (and counted) is decided by the field's own presence test and by nothing else
+		for _, fname := range []string{"MarshalToSizedBuffer", "Size"} {
+			fd := funcs[msg+"."+fname]
+			if fd == nil {
+				continue
+			}
+			bad := presenceConditions(fd)
+			construct := msg + ": presence tests of " + fname
+			if len(bad) == 0 {
+				c.OK(rule, msg, construct, c.P.Pos(fd.Pos()), "every condition on the message is `m.F != nil`, `len(m.F) > 0`, `m.F != 0` or `m.F`")
+			} else {
+				c.FailX(Oblig{Rule: rule, Func: msg, Construct: construct, Pos: c.P.Pos(bad[0].pos), Kind: "violation",
+					Detail:   "whether a field is encoded is decided by `" + bad[0].a + "`, not by the field's own presence test: a value whose field is present but holds defaults is encoded as if the field were absent, so decoding the bytes does not give the value back (and the bytes differ from the documented format)",
+					Expected: "`m.F != nil` for messages and amounts, `len(m.F) > 0` for bytes and lists, `m.F != 0` for numbers"})
+			}
+		}
 		// unmarshaller
 		if fd := funcs[msg+".Unmarshal"]; fd != nil {
 			tbl, why := unmarshalTable(fd)
@@ -307,10 +323,15 @@ type posEvent struct {
 func marshalTable(fd *ast.FuncDecl) ([]wireField, []int, string) {
 	recv := fd.Recv.List[0].Names[0].Name
 	var ev []posEvent
+	methodSel := map[*ast.SelectorExpr]bool{}
 	ast.Inspect(fd.Body, func(n ast.Node) bool {
 		switch x := n.(type) {
+		case *ast.CallExpr:
+			if se, ok := x.Fun.(*ast.SelectorExpr); ok {
+				methodSel[se] = true // m.helper(): a method of the message, not one of its fields (judged by the presence rule)
+			}
 		case *ast.SelectorExpr:
-			if id, ok := x.X.(*ast.Ident); ok && id.Name == recv {
+			if id, ok := x.X.(*ast.Ident); ok && id.Name == recv && !methodSel[x] {
 				ev = append(ev, posEvent{x.Pos(), x.Sel.Name, -1})
 			}
 		case *ast.AssignStmt:
@@ -353,6 +374,69 @@ func marshalTable(fd *ast.FuncDecl) ([]wireField, []int, string) {
 		cur = map[string]bool{}
 	}
 	return out, order, ""
+}
+
+// presenceConditions: the conditions of `if` statements in an encoder that mention the message but are not the presence test
+// of one of its fields (`m == nil`, `m.F != nil`, `len(m.F) > 0`, `m.F != 0`, `m.F`).
+func presenceConditions(fd *ast.FuncDecl) []sizeMismatch {
+	recv := fd.Recv.List[0].Names[0].Name
+	isField := func(e ast.Expr) bool {
+		se, ok := e.(*ast.SelectorExpr)
+		if !ok {
+			return false
+		}
+		id, ok := se.X.(*ast.Ident)
+		return ok && id.Name == recv
+	}
+	mentions := func(e ast.Expr) bool {
+		found := false
+		ast.Inspect(e, func(n ast.Node) bool {
+			if id, ok := n.(*ast.Ident); ok && id.Name == recv {
+				found = true
+			}
+			return true
+		})
+		return found
+	}
+	isLit := func(e ast.Expr, v string) bool {
+		switch x := e.(type) {
+		case *ast.BasicLit:
+			return x.Value == v
+		case *ast.Ident:
+			return x.Name == v
+		}
+		return false
+	}
+	var bad []sizeMismatch
+	ast.Inspect(fd.Body, func(n ast.Node) bool {
+		iff, ok := n.(*ast.IfStmt)
+		if !ok || !mentions(iff.Cond) {
+			return true
+		}
+		good := false
+		switch x := iff.Cond.(type) {
+		case *ast.SelectorExpr:
+			good = isField(x)
+		case *ast.BinaryExpr:
+			switch {
+			case x.Op == token.EQL && isLit(x.X, recv) && isLit(x.Y, "nil"):
+				good = true
+			case x.Op == token.NEQ && isField(x.X) && (isLit(x.Y, "nil") || isLit(x.Y, "0")):
+				good = true
+			case x.Op == token.GTR && isLit(x.Y, "0"):
+				if call, ok := x.X.(*ast.CallExpr); ok && len(call.Args) == 1 && isField(call.Args[0]) {
+					if id, ok := call.Fun.(*ast.Ident); ok && id.Name == "len" {
+						good = true
+					}
+				}
+			}
+		}
+		if !good {
+			bad = append(bad, sizeMismatch{pos: iff.Pos(), a: types.ExprString(iff.Cond)})
+		}
+		return true
+	})
+	return bad
 }
 
 // unmarshalTable: switch fieldNum { case N: if wireType != T …; m.F = … }
@@ -521,10 +605,15 @@ func sizeLengthMismatches(fd *ast.FuncDecl) []sizeMismatch {
 func sizeFields(fd *ast.FuncDecl) []string {
 	recv := fd.Recv.List[0].Names[0].Name
 	var ev []posEvent
+	methodSel := map[*ast.SelectorExpr]bool{}
 	ast.Inspect(fd.Body, func(n ast.Node) bool {
 		switch x := n.(type) {
+		case *ast.CallExpr:
+			if se, ok := x.Fun.(*ast.SelectorExpr); ok {
+				methodSel[se] = true // m.helper(): a method of the message, not one of its fields (judged by the presence rule)
+			}
 		case *ast.SelectorExpr:
-			if id, ok := x.X.(*ast.Ident); ok && id.Name == recv {
+			if id, ok := x.X.(*ast.Ident); ok && id.Name == recv && !methodSel[x] {
 				ev = append(ev, posEvent{x.Pos(), x.Sel.Name, -1})
 			}
 		case *ast.AssignStmt:
